@@ -483,7 +483,7 @@ func pathStr(p Path) string {
 
 func init() {
 	defProp("C04",
-		"C01's generator plus nested boxes/diamonds to depth 6 (shifted so that children touch their parent's edge, either orientation, several groups) x {BooleanOpPolyTree64, Clipper64.ExecutePolyTree64, BooleanOpPolyTreeD, ClipperD.ExecutePolyTreeD with precisions 2,1,-1,3,-2}; oracle: the multiset of tree polygons (canonical rotation) equals the flat Paths result on the same (quantised) input; root has no polygon; IsHole() <=> even level <=> negative exact area; every vertex of a node within 2 units of / inside its parent; for an interior probe of each node (inside it, in none of its children, > 2 units from every tree edge) the parent is the smallest-area non-descendant polygon containing the probe (root if none), which covers 'inside no sibling' and 'innermost container'; non-trivial = depth >= 2 with a hole and >= 3 nodes",
+		"C01's generator plus nested boxes/diamonds to depth 6 (shifted so that children touch their parent's edge, either orientation, several groups) and the tips-and-bars family (bars on distinct Y levels and pointed polygons whose tips lie exactly on those levels, generic X, no shared edges) x {BooleanOpPolyTree64, Clipper64.ExecutePolyTree64, BooleanOpPolyTreeD, ClipperD.ExecutePolyTreeD with precisions 2,1,-1,3,-2}; oracle: the multiset of tree polygons (canonical rotation) equals the flat Paths result on the same (quantised) input; root has no polygon; IsHole() <=> even level <=> negative exact area; every vertex of a node within 2 units of / inside its parent; for an interior probe of each node (inside it, in none of its children, > 2 units from every tree edge) the parent is the smallest-area non-descendant polygon containing the probe (root if none), which covers 'inside no sibling' and 'innermost container'; non-trivial = depth >= 2 with a hole and >= 3 nodes",
 		[]string{"the D variants are read in the integer frame of the nodes (Polygon() returns the scaled Path64, Scale() the factor)"},
 		drawC04, judgeC04)
 }
